@@ -25,8 +25,18 @@ L2Fs == [name : {"VALARM"}, isnd : BOOLEAN, tr : {NoTR}, props : {<< >>}, comps 
 L1Fs == UNION { [name : {n}, isnd : {TRUE}, tr : {NoTR}, props : {<< >>}, comps : {<< >>}]
                 \cup [name : {n}, isnd : {FALSE}, tr : {NoTR}, props : (IF Big THEN Seq02(PropFs) ELSE Seq01(PropFs)), comps : Seq01(L2Fs)]
                 : n \in {"VEVENT", "VTODO"} }
+\* two property filters in one component filter (ALL must hold, whatever their order): every ordered pair of a few filters of
+\* different kinds (text-match, negated text-match, existence, absence, parameter filter); part of both tiers
+PF2 == {[name |-> "P", isnd |-> FALSE, tm |-> <<[text |-> <<"a">>, neg |-> FALSE]>>, tr |-> NoTR, params |-> << >>],
+        [name |-> "P", isnd |-> FALSE, tm |-> <<[text |-> <<"a", "b">>, neg |-> TRUE]>>, tr |-> NoTR, params |-> << >>],
+        [name |-> "Q", isnd |-> FALSE, tm |-> <<[text |-> <<"a">>, neg |-> FALSE]>>, tr |-> NoTR, params |-> << >>],
+        [name |-> "Q", isnd |-> TRUE, tm |-> << >>, tr |-> NoTR, params |-> << >>],
+        [name |-> "P", isnd |-> FALSE, tm |-> << >>, tr |-> NoTR, params |-> <<[name |-> "X", isnd |-> TRUE, tm |-> << >>]>>]}
+TwoPF == {[name |-> "VCALENDAR", isnd |-> FALSE, tr |-> NoTR, props |-> << >>,
+           comps |-> <<[name |-> "VEVENT", isnd |-> FALSE, tr |-> NoTR, props |-> <<a, b>>, comps |-> << >>]>>] : a \in PF2, b \in PF2}
 TopFs == [name : {"VCALENDAR", "VX"}, isnd : {TRUE}, tr : {NoTR}, props : {<< >>}, comps : {<< >>}]
          \cup [name : {"VCALENDAR", "VX"}, isnd : {FALSE}, tr : {NoTR}, props : {<< >>}, comps : Seq01(L1Fs)]
+         \cup TwoPF
 
 PX(v) == <<[n |-> "X", v |-> v]>>
 PVals == { [n |-> "P", v |-> <<"a">>, params |-> << >>, t |-> << >>],
